@@ -81,45 +81,3 @@ vharness!(fp_const, 6, {
     if let TyKind::Adt(_, s) = c.data(I).ty.kind(I) { assert!(count(s) == 1); }
 });
 
-use chalk_ir::fold::shift::Shift;
-fn bv(d: u32, i: usize) -> Ty<VI> { ty(TyKind::BoundVar(BoundVar::new(DebruijnIndex::new(d), i))) }
-vharness!(fp_shift_ref_concrete_m, 8, {
-    let t = ty(TyKind::Ref(Mutability::Not, lt(LifetimeData::Static), ty(TyKind::Slice(bv(1, sym::usize())))));
-    let up = t.shifted_in_from(I, DebruijnIndex::ONE);
-    assert!(up.shifted_out_to(I, DebruijnIndex::ONE) == Ok(t));
-});
-vharness!(fp_shift_ref_sym_m, 8, {
-    let t = ty(TyKind::Ref(sym_mutability(), lt(LifetimeData::Static), ty(TyKind::Slice(bv(1, sym::usize())))));
-    let up = t.shifted_in_from(I, DebruijnIndex::ONE);
-    assert!(up.shifted_out_to(I, DebruijnIndex::ONE) == Ok(t));
-});
-vharness!(fp_shift_slice, 8, {
-    let t = ty(TyKind::Slice(bv(1, sym::usize())));
-    let up = t.shifted_in_from(I, DebruijnIndex::ONE);
-    assert!(up.shifted_out_to(I, DebruijnIndex::ONE) == Ok(t));
-});
-vharness!(fp_shift_raw_sym_m, 8, {
-    let t = ty(TyKind::Raw(sym_mutability(), bv(1, sym::usize())));
-    let up = t.shifted_in_from(I, DebruijnIndex::ONE);
-    assert!(up.shifted_out_to(I, DebruijnIndex::ONE) == Ok(t));
-});
-vharness!(fp_err_eq_derived, 8, {
-    let t = ty(TyKind::Slice(bv(0, sym::usize())));
-    let a = t.shifted_out(I);
-    let b = t.shifted_out_to(I, DebruijnIndex::ONE);
-    assert!(a == b);
-});
-vharness!(fp_err_eq_manual, 8, {
-    let t = ty(TyKind::Slice(bv(0, sym::usize())));
-    let a = t.shifted_out(I);
-    let b = t.shifted_out_to(I, DebruijnIndex::ONE);
-    let same = match (&a, &b) { (Ok(x), Ok(y)) => x == y, (Err(_), Err(_)) => true, _ => false };
-    assert!(same);
-});
-vharness!(fp_err_eq_isok, 8, {
-    let t = ty(TyKind::Slice(bv(0, sym::usize())));
-    let a = t.shifted_out(I);
-    let b = t.shifted_out_to(I, DebruijnIndex::ONE);
-    let same = if a.is_ok() { b.is_ok() && a.unwrap() == b.unwrap() } else { b.is_err() };
-    assert!(same);
-});
